@@ -1,0 +1,84 @@
+//go:build verif
+
+// Verification hooks (build tag `verif`).  Add-only instrumentation consumed by
+// the runtime monitors under /verif.  With the tag off, verif_off.go supplies
+// empty bodies that inline away.
+
+package lisp
+
+import (
+	"context"
+	"sync/atomic"
+)
+
+// VerifHooks is the table of monitor callbacks.  Any field may be nil.
+type VerifHooks struct {
+	// Step runs in checkLimitsSlow right after the step counter advanced.
+	Step func(r *Runtime, steps int64)
+	// Push/Pop run after a frame was appended / removed.
+	Push func(r *CallStack, height int)
+	Pop  func(r *CallStack, height int)
+	// EvalEnter runs in eval after the nesting check let evaluation proceed.
+	EvalEnter func(r *Runtime, nesting int)
+	// TailElide runs in funCall where a tail-recursion mark is created; frames
+	// are the npop terminal frames (innermost last) about to be collapsed.
+	TailElide func(r *Runtime, frames []CallFrame)
+}
+
+var verifHooks atomic.Pointer[VerifHooks]
+
+// VerifSetHooks installs (or with nil removes) the monitor table.
+func VerifSetHooks(h *VerifHooks) { verifHooks.Store(h) }
+
+func verifOnStep(r *Runtime) {
+	if h := verifHooks.Load(); h != nil && h.Step != nil {
+		h.Step(r, r.steps)
+	}
+}
+
+func verifOnPush(s *CallStack) {
+	if h := verifHooks.Load(); h != nil && h.Push != nil {
+		h.Push(s, len(s.Frames))
+	}
+}
+
+func verifOnPop(s *CallStack) {
+	if h := verifHooks.Load(); h != nil && h.Pop != nil {
+		h.Pop(s, len(s.Frames))
+	}
+}
+
+func verifOnEvalEnter(r *Runtime) {
+	if h := verifHooks.Load(); h != nil && h.EvalEnter != nil {
+		h.EvalEnter(r, r.evalNesting)
+	}
+}
+
+func verifOnTailElide(r *Runtime, npop int) {
+	if h := verifHooks.Load(); h != nil && h.TailElide != nil {
+		// The callee's own frame has just been pushed; the chain found by
+		// TerminalFID is the npop frames beneath it.
+		n := len(r.Stack.Frames) - 1
+		if npop > n {
+			npop = n
+		}
+		frames := make([]CallFrame, npop)
+		copy(frames, r.Stack.Frames[n-npop:n])
+		h.TailElide(r, frames)
+	}
+}
+
+// VerifEvalDepth returns the re-entrancy depth of top-level entry points.
+func VerifEvalDepth(r *Runtime) int { return r.evalDepth }
+
+// VerifConditionDepth returns the number of conditions pending for rethrow.
+func VerifConditionDepth(r *Runtime) int { return len(r.conditionStack) }
+
+// VerifEnvContext returns env's raw evaluation context (possibly nil).
+func VerifEnvContext(env *LEnv) context.Context { return env.evalCtx }
+
+// VerifProgramExprs returns the expressions of a parsed Program.
+func VerifProgramExprs(p Program) []*LVal { return p.exprs }
+
+// VerifMaxSteps returns the configured per-evaluation step budget.
+func VerifMaxSteps(r *Runtime) int64 { return r.maxSteps }
